@@ -78,6 +78,22 @@ def build(name):
                 return r, s
         o = C()
         return {'objs': {'w': o}, 'calls': {'sig': lambda: sigtools.signature(o), 'inspect': lambda: inspect.signature(o)}}
+    if name in ('as_forged_class', 'as_forged_subclass'):
+        # the subject of the retrieval is the CLASS: its __signature__ entry is the as_forged descriptor itself (own, or inherited)
+        class C(object):
+            __signature__ = specifiers.as_forged
+
+            @specifiers.forwards_to_method('method')
+            def __call__(self, first, *args, **kwargs):
+                return self.method(*args, **kwargs)
+
+            def method(self, r, *, s):
+                return r, s
+
+        class D(C):
+            pass
+        T = C if name == 'as_forged_class' else D
+        return {'objs': {'w': T, 'base': C}, 'calls': {'sig': lambda: sigtools.signature(T), 'inspect': lambda: inspect.signature(T)}}
     if name == 'decorator':
         @wrappers.decorator
         def d(func, *args, c=3, **kwargs):
@@ -145,7 +161,7 @@ def build(name):
     raise ValueError(name)
 
 
-SCENARIOS = ['wraps', 'wraps_chain', 'signature_attr', 'signature_attr_upgraded', 'forger', 'forger_emulate', 'modifiers', 'as_forged', 'decorator', 'method_kwo',
+SCENARIOS = ['wraps', 'wraps_chain', 'signature_attr', 'signature_attr_upgraded', 'forger', 'forger_emulate', 'modifiers', 'as_forged', 'as_forged_class', 'as_forged_subclass', 'decorator', 'method_kwo',
              'forger_function', 'partial_wraps', 'super_class', 'wrapper_decorator']
 WATCHED = ('__wrapped__', '__signature__', '_sigtools__forger', '_sigtools__wrappers')
 
@@ -501,7 +517,7 @@ def crash_part(check, tier, seed, scratch):
 SCHED_CASES = [('wraps', ['sig', 'sig']), ('wraps', ['sig', 'inspect']), ('wraps_chain', ['sig', 'sig1']), ('signature_attr', ['sig', 'inspect']), ('as_forged', ['inspect', 'inspect']),
                ('as_forged', ['sig', 'inspect']), ('forger_emulate', ['inspect', 'inspect']), ('modifiers', ['sig', 'sig']), ('method_kwo', ['sig', 'bind']),
                ('decorator', ['inspect', 'sig']), ('wraps', ['sig', 'sig', 'inspect']), ('partial_wraps', ['sig', 'inspect']), ('super_class', ['sig', 'sig']),
-               ('wrapper_decorator', ['inspect', 'inspect']), ('forger_function', ['sig', 'inspect'])]
+               ('wrapper_decorator', ['inspect', 'inspect']), ('forger_function', ['sig', 'inspect']), ('as_forged_class', ['sig', 'inspect']), ('as_forged_subclass', ['sig', 'sig'])]
 
 
 # cases where the second preemption is SWEPT over every step of the other thread while the first thread is parked part-way (holding what it holds)
